@@ -9,6 +9,7 @@ import (
 	"github.com/yandex/pandora/core/config"
 
 	"verifsim/simfs"
+	"verifsim/simnet"
 	"verifsim/simrt"
 )
 
@@ -431,6 +432,9 @@ func c13Scenario(r *R) {
 	if mustErr && out.NewErr == nil && out.RunErr == nil {
 		r.Fail("not-rejected/"+sig, "the scenario description with defect %q was accepted: %d scenarios delivered\n%s", d.Name, len(out.All), text)
 	}
+	if out.NewErr == nil && out.RunErr == nil && len(out.All) > 0 {
+		c13ScenarioShots(r, typ, name, files, sig, text)
+	}
 	if d.Name == "none" && !strings.Contains(defect, "truncated") && (out.NewErr != nil || out.RunErr != nil) {
 		r.Fail("valid-rejected/"+sig, "the valid scenario description was rejected: %v %v\n%s", out.NewErr, out.RunErr, text)
 	}
@@ -499,5 +503,45 @@ func c13Config(r *R) {
 	}
 	if ph.MustErr && err == nil {
 		r.Fail("not-rejected/"+sig, "the configuration value %q (field kind %d) was accepted without an error", ph.Val, target)
+	}
+}
+
+// c13ScenarioShots: a description that the provider accepted is also executed: a few shots of the real scenario gun
+// against a target that answers every request. A panic that escapes a goroutine (CRASH), a hang or a spin is a
+// violation, and so is a panic inside Shoot (the instance's recover turns it into a failure of the whole pool: the
+// input was neither rejected with an error nor skipped).
+func c13ScenarioShots(r *R, typ, file string, files map[string][]byte, sig, text string) {
+	target := "10.0.0.40:8080"
+	grpc := typ == "grpc/scenario"
+	if grpc {
+		target = "10.0.0.40:9090"
+	}
+	res := runHTTPPool(r, httpPoolSpec{
+		Ammo:      map[string]interface{}{"type": typ, "file": file, "limit": 3},
+		Gun:       map[string]interface{}{"type": typ, "target": target},
+		Instances: 1 + r.W.Draw(2), Tokens: 5, Files: files, Horizon: 10 * time.Minute,
+	}, nil, func(nw *simnet.Net) {
+		if grpc {
+			startGRPCTarget(nw, target, nil)
+		} else {
+			startHTTPTarget(nw, target, false, func(n int, s *seenReq) respScript {
+				return respScript{Status: 200, Hdr: map[string]string{"Content-Type": "application/json"}, Body: []byte("{\"auth_key\": \"k\", \"items\": [1, 2, 3]}")}
+			})
+		}
+	})
+	r.Note("scenario-shots/" + typ)
+	switch res.Sim.Class {
+	case simrt.Crash:
+		r.Fail("CRASH/shot/"+sig+"/"+frameSig(res.Sim.Stack), "%s\n%s\ndescription:\n%s", res.Sim.Detail, res.Sim.Stack, text)
+	case simrt.Spin, simrt.Livelock:
+		r.Fail("SPIN/shot/"+sig, "%s\n%s", res.Sim.Detail, res.Sim.Stack)
+	case simrt.Hang:
+		r.Fail("HANG/shot/"+sig, "run returned=%v (%v): %s", res.RunDone, res.RunErr, res.Sim.Detail)
+	default:
+		if res.RunErr != nil && strings.Contains(res.RunErr.Error(), "shoot panic") {
+			// the instance's recover keeps the process alive, but the input was not rejected with an error: it
+			// raised a panic in the middle of the run, which fails the whole pool
+			r.Fail("panic-in-shot/"+sig, "the accepted description made a shot panic: %v\ndescription:\n%s", res.RunErr, text)
+		}
 	}
 }
